@@ -1,6 +1,7 @@
 package simrt
 
 import (
+	"github.com/go-kid/ioc/syslog"
 	"runtime/debug"
 	"strings"
 	"sync/atomic"
@@ -87,6 +88,11 @@ func (h *Handle) OnClose(self any) error {
 	err := h.C.Callback("close", h.ID, self)
 	h.C.Log("close-exit", h.ID, "")
 	if err != nil && h.C.Parallel {
+		if h.C.StockLog {
+			// the closers of an application report through one prefix logger of the library, from
+			// inside the parallel shutdown
+			syslog.Pref("Closers").Errorf("closer %s failed", h.ID)
+		}
 		// racesim: the error is an object of the application's own; whoever formats it reads it
 		err = &ProbeErr{H: h, Msg: err.Error()}
 	}
